@@ -378,6 +378,8 @@ class Interp:
         if hook is not None:
             hook(self, func, args, kwargs)
         summ = p.summaries.get(func.qualname)
+        if summ is None and '*' in p.summaries and func.cls == 'AnsiString':
+            summ = p.summaries['*']
         if summ is not None:
             r = summ(self, func, args, kwargs)
             if r is not NotImplemented:
@@ -728,7 +730,7 @@ class Interp:
         if isinstance(obj, SuperRef):
             return self.bm.super_attr(self, obj, name)
         if is_str(obj) or isinstance(obj, (PList, PDict, tuple, PIter)) or is_int(obj) or is_bool(obj) \
-                or isinstance(obj, self.bm.SymSeq):
+                or isinstance(obj, (self.bm.SymSeq, self.bm.UStr)):
             return BuiltinMethod(obj, name)
         raise Unsupported('getattr %r . %s' % (type(obj).__name__, name))
 
@@ -761,6 +763,10 @@ class Interp:
             return hasattr({}, name)
         if obj is None:
             return hasattr(None, name)
+        if isinstance(obj, self.bm.UStr):
+            return hasattr('', name)
+        if type(obj).__name__ in ('AbsAny', 'AbsVal'):
+            return False
         raise Unsupported('hasattr on %r' % (type(obj),))
 
     # ---------------------------------------------------------------- truth / iteration
